@@ -481,15 +481,10 @@ impl SlabRouter {
         if let Some(wal_mutex) = &self.wal {
             let mut wal = wal_mutex.lock();
 
-            // Log embedding if present
-            if let Some(TensorValue::Vector(embedding)) = value.get("_embedding") {
-                let entity_id = self.index.get_or_create(key);
-                wal.append(&WalEntry::EmbeddingSet {
-                    entity_id,
-                    embedding: embedding.clone(),
-                })
-                .map_err(|e| SlabRouterError::WalError(format!("Failed to log embedding: {e}")))?;
-            }
+            // A put is logged as ONE record so that a crash cannot tear it: replaying
+            // `MetadataSet` also restores the embedding carried in `_embedding`, so a
+            // separate `EmbeddingSet` record (which could survive a crash without its
+            // metadata, mixing the new vector with the old fields) is not written.
 
             // Log metadata set (sync behavior depends on WalConfig::sync_mode)
             wal.append(&WalEntry::MetadataSet {
@@ -520,19 +515,9 @@ impl SlabRouter {
         if let Some(wal_mutex) = &self.wal {
             let mut wal = wal_mutex.lock();
 
-            // Log embedding delete if key is in entity index
-            if let Some(entity_id) = self.index.get(key) {
-                wal.append(&WalEntry::EmbeddingDelete { entity_id })
-                    .map_err(|e| {
-                        SlabRouterError::WalError(format!("Failed to log embedding delete: {e}"))
-                    })?;
-                wal.append(&WalEntry::EntityRemove {
-                    key: key.to_string(),
-                })
-                .map_err(|e| {
-                    SlabRouterError::WalError(format!("Failed to log entity remove: {e}"))
-                })?;
-            }
+            // A delete is logged as ONE record so that a crash cannot tear it: replaying
+            // `MetadataDelete` also drops the key's embedding and index entry, exactly as
+            // `delete` does.
 
             // Log metadata delete (sync behavior depends on WalConfig::sync_mode)
             wal.append(&WalEntry::MetadataDelete {
@@ -643,6 +628,12 @@ impl SlabRouter {
                 }
             },
             WalEntry::MetadataDelete { key } => {
+                if Self::classify_key(key) == KeyClass::Embedding {
+                    if let Some(entity_id) = self.index.get(key) {
+                        self.embeddings.delete(entity_id);
+                    }
+                    self.index.remove(key);
+                }
                 self.metadata.delete(key);
             },
             WalEntry::EmbeddingSet {
